@@ -64,7 +64,7 @@ def run(chk, replay=None):
                 os.remove(g)
                 chk.count(); chk.nontriv(('gz', kind, k)); chk.dist('fault_gz_' + kind)
                 case = {'fault': 'gzip ' + kind, 'offset': k, 'rc': rc, 'file_name': gname}
-                if rc == 2 or rc < 0:
+                if streamlib.crashed(rc, se):
                     chk.violate('CLI crashed on damaged gzip', dict(case, stderr=se[-300:].decode('utf-8', 'replace')), tags=['cli', 'panic'])
                 if rc == 0 and so != full:
                     chk.violate('damaged gzip: success reported for incomplete / different output', dict(case, out_len=len(so), full_len=len(full)), tags=['cli', 'silent'])
@@ -91,7 +91,7 @@ def run(chk, replay=None):
                 rc, so, se = streamlib.cli_run(['redact', g, '-n'])
                 chk.count(); chk.nontriv(('mgz', kind, mask, k)); chk.dist('fault_mgz_' + kind)
                 case = {'fault': 'multi-member gzip ' + kind, 'mask': mask, 'offset': k, 'member_starts': starts, 'rc': rc}
-                if rc == 2 or rc < 0:
+                if streamlib.crashed(rc, se):
                     chk.violate('CLI crashed on damaged gzip', dict(case, stderr=se[-300:].decode('utf-8', 'replace')), tags=['cli', 'panic'])
                 if rc == 0 and so != mfull:
                     chk.violate('damaged multi-member gzip: success reported for incomplete / different output', dict(case, out_len=len(so), full_len=len(mfull)), tags=['cli', 'silent'])
